@@ -177,6 +177,78 @@ def r11_3(ctx) -> None:
     ctx.check(set(m) == {"k"} and rd == {"k"}, "R11.3", ob.methods["import_from_dict"], None, "OctKey members", f"oct export {sorted(m)} / import {sorted(rd)} differ from {{k}}", "k", construct="oct members")
 
 
+def _vdk_registry_folded(ctx, nb, vr) -> Optional[List[str]]:
+    """Fold validate_dict_key_registry on a probe registry (a required str member, an optional int member) and probe JWKs: it raises ValueError
+    exactly when the required member is missing or a PRESENT member - whatever its value: null, empty, zero - fails its validator; members the
+    registry does not name are ignored.  None when it does not fold or a test was decided one way only (the shape clauses decide then)."""
+    from ..fold import FuncVal, ClassVal, FoldRaise, is_unknown
+    eng = ctx.eng
+    P, F = eng.prog, eng.folder
+    KP = P.cls("registry:KeyParameter")
+    probes = [({}, False), ({"a": "x"}, True), ({"a": ""}, True), ({"a": 1}, False), ({"a": None}, False), ({"a": "x", "b": 1}, True), ({"a": "x", "b": 0}, True),
+              ({"a": "x", "b": "s"}, False), ({"a": "x", "b": None}, False), ({"b": 1}, False), ({"a": "x", "zz": [1]}, True), ({"zz": 1, "a": [], "b": 2}, False)]
+    problems: List[str] = []
+    F.start_trace()
+    try:
+        reg = {"a": F.instantiate(KP, ["A", "str"], {"required": True}), "b": F.instantiate(KP, ["B", "int"], {})}
+        if any(is_unknown(F.get_attr(v, "validate")) or F.get_attr(v, "required") not in (True, False) for v in reg.values()):
+            return None
+        for dk_, accept in probes:
+            try:
+                r = F.call(FuncVal(vr, None, ClassVal(nb)), [dict(dk_), reg], {})
+            except FoldRaise as e:
+                if accept:
+                    problems.append(f"refuses {dk_!r}")
+                elif getattr(e, "name", "") != "ValueError":
+                    problems.append(f"refuses {dk_!r} with {getattr(e, 'name', '?')}, not ValueError")
+                continue
+            if is_unknown(r):
+                return None
+            if not accept:
+                problems.append(f"accepts {dk_!r}")
+    except AnalysisError:
+        return None
+    finally:
+        sided = F.one_sided(ignore=("registry:is_str", "registry:is_int", ".__init__"))
+    return None if sided else problems
+
+
+def _vdk_registry_shape(ctx, vr) -> None:
+    eng = ctx.eng
+    cfgr = cfg_of(vr)
+    loops = [l for l in cfgr.nodes if l.kind == "loop"]
+    dk = vr.pos_params[1]
+    reqt = [t for t in cfgr.nodes if t.kind == "test" and isinstance(t.ast, ast.Compare) and isinstance(t.ast.ops[0], ast.NotIn) and norm(t.ast.comparators[0]) == dk]
+    req_ok = bool(reqt) and any(norm(t.ast).endswith(".required") for t in cfgr.nodes if t.kind == "test") and \
+        all(not can_reach_exit(cfgr, succ_by_label(cfgr, t, "true")) and not any(l in cfgr.reachable(s0) for s0 in succ_by_label(cfgr, t, "true") for l in loops) for t in reqt)
+    vcalls = [s for s in eng.cg.calls_in(vr) if isinstance(s.node, ast.Call) and s.attr == "validate"]
+    hand_ok = all(not (cfgr.exit in cfgr.reachable(h) or any(l in cfgr.reachable(h) for l in loops)) for h in cfgr.nodes if h.kind == "handler")
+    ctx.check(req_ok and bool(vcalls) and hand_ok and len(loops) == 1, "R11.4", vr, vr.node, f"{vr.short}", "validate_dict_key_registry does not refuse missing required members / "
+              "does not validate present members / swallows validation errors", "required -> raise; present -> validate; errors re-raised", construct="validate_dict_key_registry")
+    # "wrong member types are refused": a member is validated whenever it is PRESENT - the only conditions on the way to registry[k].validate(...) are
+    # membership tests of the key in the given dict (and the required-member refusal); a test of the member's value (`is not None`, truthiness) lets
+    # a null / empty member of the wrong type through
+    for vc in vcalls:
+        vn_ = cfgr.node_of(vc.node)
+        if vn_ is None:
+            continue
+        bad_tests = set()
+        for path in cfgr.guards_of(vn_):
+            for t, _out in path:
+                if t.kind != "test":
+                    continue
+                a = t.ast
+                parts = a.values if isinstance(a, ast.BoolOp) else [a]
+                for q in parts:
+                    if isinstance(q, ast.Compare) and len(q.ops) == 1 and isinstance(q.ops[0], (ast.In, ast.NotIn)) and norm(q.comparators[0]) == dk:
+                        continue
+                    if norm(q).endswith(".required"):
+                        continue
+                    bad_tests.add(norm(q))
+        ctx.check(not bad_tests, "R11.4", vr, vc.node, f"{vr.short} :: condition of validate()", f"a JWK member is type-checked only when {sorted(bad_tests)} holds: a member that is present "
+                  "with a value that fails this test (null, empty) is never validated", f"if k in {dk}: registry[k].validate({dk}[k])", construct="member validation conditional on the member's value")
+
+
 def r11_4(ctx) -> None:
     eng = ctx.eng
     P = eng.prog
@@ -211,38 +283,13 @@ def r11_4(ctx) -> None:
     vr = nb.methods.get("validate_dict_key_registry")
     if vr is None:
         raise AnalysisError("validate_dict_key_registry vanished")
-    cfgr = cfg_of(vr)
-    loops = [l for l in cfgr.nodes if l.kind == "loop"]
-    dk = vr.pos_params[1]
-    reqt = [t for t in cfgr.nodes if t.kind == "test" and isinstance(t.ast, ast.Compare) and isinstance(t.ast.ops[0], ast.NotIn) and norm(t.ast.comparators[0]) == dk]
-    req_ok = bool(reqt) and any(norm(t.ast).endswith(".required") for t in cfgr.nodes if t.kind == "test") and \
-        all(not can_reach_exit(cfgr, succ_by_label(cfgr, t, "true")) and not any(l in cfgr.reachable(s0) for s0 in succ_by_label(cfgr, t, "true") for l in loops) for t in reqt)
-    vcalls = [s for s in eng.cg.calls_in(vr) if isinstance(s.node, ast.Call) and s.attr == "validate"]
-    hand_ok = all(not (cfgr.exit in cfgr.reachable(h) or any(l in cfgr.reachable(h) for l in loops)) for h in cfgr.nodes if h.kind == "handler")
-    ctx.check(req_ok and bool(vcalls) and hand_ok and len(loops) == 1, "R11.4", vr, vr.node, f"{vr.short}", "validate_dict_key_registry does not refuse missing required members / "
-              "does not validate present members / swallows validation errors", "required -> raise; present -> validate; errors re-raised", construct="validate_dict_key_registry")
-    # "wrong member types are refused": a member is validated whenever it is PRESENT - the only conditions on the way to registry[k].validate(...) are
-    # membership tests of the key in the given dict (and the required-member refusal); a test of the member's value (`is not None`, truthiness) lets
-    # a null / empty member of the wrong type through
-    for vc in vcalls:
-        vn_ = cfgr.node_of(vc.node)
-        if vn_ is None:
-            continue
-        bad_tests = set()
-        for path in cfgr.guards_of(vn_):
-            for t, _out in path:
-                if t.kind != "test":
-                    continue
-                a = t.ast
-                parts = a.values if isinstance(a, ast.BoolOp) else [a]
-                for q in parts:
-                    if isinstance(q, ast.Compare) and len(q.ops) == 1 and isinstance(q.ops[0], (ast.In, ast.NotIn)) and norm(q.comparators[0]) == dk:
-                        continue
-                    if norm(q).endswith(".required"):
-                        continue
-                    bad_tests.add(norm(q))
-        ctx.check(not bad_tests, "R11.4", vr, vc.node, f"{vr.short} :: condition of validate()", f"a JWK member is type-checked only when {sorted(bad_tests)} holds: a member that is present "
-                  "with a value that fails this test (null, empty) is never validated", f"if k in {dk}: registry[k].validate({dk}[k])", construct="member validation conditional on the member's value")
+    folded = _vdk_registry_folded(ctx, nb, vr)
+    if folded is not None:
+        ctx.check(not folded, "R11.4", vr, vr.node, f"{vr.short} (folded on probes)", "validate_dict_key_registry does not refuse missing required members / "
+                  "does not validate present members / swallows validation errors" + (": " + "; ".join(folded[:3]) if folded else ""),
+                  "required -> raise; present -> validate (whatever the value); errors re-raised as ValueError", construct="validate_dict_key_registry")
+    else:
+        _vdk_registry_shape(ctx, vr)
     # __init__ validates the merged dict
     cfgi = cfg_of(init)
     st = [n for n in fn_nodes(init) if isinstance(n, ast.Assign) and norm(n.targets[0]) == f"{init.self_name}._dict_value" and isinstance(n.value, ast.Name)]
